@@ -1140,7 +1140,7 @@ pub fn run(ctx: &Ctx, rng: Rng, rep: &mut Report) {
             Sup::Panicked => rep.count("histories_ended_by_panic"),
             Sup::Hang(diag) => {
                 for p in PROGRESS_PROPS.iter() {
-                    rep.violate(p, "hang/no-thread-can-progress", format!("{}: a call into the cache never returned: every thread is asleep and nothing is pending that could wake it (phase {})", flavor.name(), diag["phase"]), json!({"history": ctxj, "diagnosis": diag}));
+                    rep.violate(p, "hang/no-thread-can-progress", format!("{}: a call into the cache never returned: {} (phase {})", flavor.name(), diag["kind"].as_str().unwrap_or("no thread can make progress"), diag["phase"]), json!({"history": ctxj, "diagnosis": diag}));
                 }
                 rep.count("hangs");
                 stop = true;
